@@ -176,6 +176,10 @@ package queueing
 //@ pred occSound(p, occ, goff) = forall j in 0..len(p.stages) :: occ[slotG(p, goff, j)]
 //@ pred occOwned(p, occ, goff, own) = forall k in 0..len(occ) :: occ[k] ==> 0 <= own[k] && own[k] < len(p.stages) && slotG(p, goff, own[k]) == k
 // record j is exactly as it was on entry / has taken its step (dwell counter down by one, or at most one stage up)
+// owner map inside the record scan: the outer loop's ghost before the first iteration, the scan's own ghost afterwards
+// (an inner loop's ghost cannot be initialised from an outer loop's ghost: the engine's write-set discovery pass runs the
+// outer body before the outer ghosts exist)
+//@ func ownAt(i, g0, g1) = (i == 0 ? g0 : g1)
 //@ pred recSame(p, j) = p.stages[j].Stage == old(p.stages)[j].Stage && p.stages[j].CycleLeft == old(p.stages)[j].CycleLeft
 //@ pred recDone(p, j) = (old(p.stages)[j].CycleLeft > 0 ==> p.stages[j].Stage == old(p.stages)[j].Stage && p.stages[j].CycleLeft == old(p.stages)[j].CycleLeft - 1) && (old(p.stages)[j].CycleLeft == 0 ==> p.stages[j].CycleLeft == 0 && (p.stages[j].Stage == old(p.stages)[j].Stage || p.stages[j].Stage == old(p.stages)[j].Stage + 1))
 //@ pred recKeep(p) = forall j in 0..len(p.stages) :: p.stages[j].Lane == old(p.stages)[j].Lane && p.stages[j].Item == old(p.stages)[j].Item
@@ -220,9 +224,9 @@ package queueing
 //@   loop 0: invariant forall j in 0..len(p.stages) :: old(p.stages)[j].Stage <= stage || old(p.stages)[j].Stage > maxStage ==> recSame(p, j)
 //@   loop 0: invariant forall j in 0..len(p.stages) :: stage < old(p.stages)[j].Stage && old(p.stages)[j].Stage <= maxStage ==> recDone(p, j)
 //@   loop 0: invariant advHyp(p) ==> (forall j in 0..len(p.stages) :: stage < old(p.stages)[j].Stage && old(p.stages)[j].CycleLeft == 0 ==> p.stages[j].Stage == old(p.stages)[j].Stage + 1)
-//@   loop 1: ghost gown1 = gown0
-//@   loop 1: backedge gown1 = (p.stages[athead(i)].Stage == athead(p.stages[i].Stage) ? gown1 : upd(gown1, goff[stage + 1] + p.stages[athead(i)].Lane, athead(i)))
-//@   loop 1: invariant minStage <= stage && stage <= maxStage && maxStage <= lastStage - 1 && lastStage == p.numStages - 1 && occBase == minStage && 0 <= minStage && n == len(p.stages) && 0 <= i && i <= n
+//@   loop 1: ghost gown1 = idperm
+//@   loop 1: backedge gown1 = (p.stages[athead(i)].Stage == athead(p.stages[i].Stage) ? ownAt(athead(i), gown0, gown1) : upd(ownAt(athead(i), gown0, gown1), goff[stage + 1] + p.stages[athead(i)].Lane, athead(i)))
+//@   loop 1: invariant minStage <= stage && stage <= maxStage && maxStage <= lastStage - 1 && lastStage == p.numStages - 1 && occBase == minStage && 0 <= minStage && n == len(p.stages) && n > 0 && 0 <= i && i <= n
 //@   loop 1: invariant advFrame(p) && fresh(occ)
 //@   loop 1: invariant goffDef(goff, minStage, p.width, minStage, maxStage + 4)
 //@   loop 1: invariant goffMono(goff, p.width, minStage, maxStage + 4)
@@ -230,7 +234,7 @@ package queueing
 //@   loop 1: invariant recsOK(p) && stagesIn(p, minStage, maxStage + 1) && advRange(p, minStage, maxStage)
 //@   loop 1: invariant distinctOK(p)
 //@   loop 1: invariant occSound(p, occ, goff)
-//@   loop 1: invariant occOwned(p, occ, goff, gown1)
+//@   loop 1: invariant occOwned(p, occ, goff, ownAt(i, gown0, gown1))
 //@   loop 1: invariant recKeep(p)
 //@   loop 1: invariant forall j in 0..len(p.stages) :: old(p.stages)[j].Stage < stage || (old(p.stages)[j].Stage == stage && j >= i) || old(p.stages)[j].Stage > maxStage ==> recSame(p, j)
 //@   loop 1: invariant forall j in 0..len(p.stages) :: (stage < old(p.stages)[j].Stage && old(p.stages)[j].Stage <= maxStage) || (old(p.stages)[j].Stage == stage && j < i) ==> recDone(p, j)
